@@ -975,3 +975,171 @@ func TestVerifC16SlowUpload(t *testing.T) {
 	}
 	out.emit(res)
 }
+
+// TestVerifC15WriteThenClose: one end writes its whole stream and closes at once while the other end is slow to read
+// (it starts late and takes 64 KiB every few milliseconds).  The reader must get every byte and then a clean end of stream.
+func TestVerifC15WriteThenClose(t *testing.T) {
+	out := verifOpenOut(t)
+	defer out.close()
+	const total = 4 << 20
+	mkStream := func(seed byte) []byte {
+		b := make([]byte, total)
+		for i := range b {
+			b[i] = byte(i*31) ^ seed ^ byte(i>>11)
+		}
+		return b
+	}
+	slowRead := func(c net.Conn) (int, string, string) {
+		time.Sleep(200 * time.Millisecond)
+		h := sha256.New()
+		buf := make([]byte, 64*1024)
+		n := 0
+		c.SetReadDeadline(time.Now().Add(30 * time.Second))
+		for {
+			k, err := c.Read(buf)
+			h.Write(buf[:k])
+			n += k
+			if err != nil {
+				e := ""
+				if err != io.EOF {
+					e = err.Error()
+				}
+				return n, hex.EncodeToString(h.Sum(nil)[:8]), e
+			}
+			time.Sleep(3 * time.Millisecond)
+		}
+	}
+	for _, dir := range []string{"client-writes-server-reads-slowly", "server-writes-client-reads-slowly"} {
+		type rr struct {
+			n    int
+			sum  string
+			errs string
+		}
+		srvRes := make(chan rr, 1)
+		data := mkStream(byte(len(dir)))
+		b := startVerifBridge(t, func(sc *verifSrvConn) {
+			if dir == "client-writes-server-reads-slowly" {
+				n, sum, e := slowRead(sc.c)
+				srvRes <- rr{n, sum, e}
+				sc.c.Close()
+				return
+			}
+			sc.c.Write(data)
+			sc.c.Close()
+		})
+		res := map[string]interface{}{"kind": "write-then-close", "direction": dir, "sent": total, "sent_sum": verifSum(data)}
+		c, err := net.Dial("tcp", b.frontAddr)
+		if err != nil {
+			res["err"] = err.Error()
+			out.emit(res)
+			b.stop()
+			continue
+		}
+		if dir == "client-writes-server-reads-slowly" {
+			c.Write(data)
+			c.Close()
+			select {
+			case r := <-srvRes:
+				res["received"], res["received_sum"], res["read_err"] = r.n, r.sum, r.errs
+			case <-time.After(40 * time.Second):
+				res["read_err"] = "server still reading after 40 s"
+			}
+		} else {
+			n, sum, e := slowRead(c)
+			res["received"], res["received_sum"], res["read_err"] = n, sum, e
+			c.Close()
+		}
+		out.emit(res)
+		b.stop()
+	}
+}
+
+// TestVerifC16AbortThenConcurrent: some clients hang up in the middle of a download (the bridge's writes towards them
+// fail); afterwards several downloads run at the same time through the same bridge processes.  Each of them must get
+// exactly the stream its own server connection wrote, followed by a clean end of stream.
+func TestVerifC16AbortThenConcurrent(t *testing.T) {
+	out := verifOpenOut(t)
+	defer out.close()
+	const total = 12 << 20
+	pattern := func(id byte, off int, b []byte) {
+		for i := range b {
+			p := off + i
+			b[i] = byte(p*7) ^ id ^ byte(p>>13)
+		}
+	}
+	b := startVerifBridge(t, func(sc *verifSrvConn) {
+		defer sc.c.Close()
+		one := make([]byte, 1)
+		if _, err := io.ReadFull(sc.c, one); err != nil {
+			return
+		}
+		buf := make([]byte, 64*1024)
+		for off := 0; off < total; off += len(buf) {
+			pattern(one[0], off, buf)
+			if _, err := sc.c.Write(buf); err != nil {
+				return
+			}
+		}
+	})
+	defer b.stop()
+	download := func(id byte, stopAfter int) (int, bool, string) {
+		c, err := net.Dial("tcp", b.frontAddr)
+		if err != nil {
+			return 0, false, err.Error()
+		}
+		defer c.Close()
+		c.Write([]byte{id})
+		buf := make([]byte, 64*1024)
+		want := make([]byte, 64*1024)
+		n, ok := 0, true
+		c.SetReadDeadline(time.Now().Add(60 * time.Second))
+		for {
+			k, err := c.Read(buf)
+			if k > 0 {
+				pattern(id, n, want[:k])
+				if !bytes.Equal(buf[:k], want[:k]) {
+					ok = false
+				}
+				n += k
+			}
+			if stopAfter > 0 && n >= stopAfter {
+				return n, ok, "aborted by the client"
+			}
+			if err != nil {
+				if err == io.EOF {
+					return n, ok, ""
+				}
+				return n, ok, err.Error()
+			}
+		}
+	}
+	var wg sync.WaitGroup
+	for i := 0; i < 8; i++ {
+		wg.Add(1)
+		go func(i int) { defer wg.Done(); download(byte(100+i), 256*1024) }(i)
+	}
+	wg.Wait()
+	time.Sleep(300 * time.Millisecond)
+	type res struct {
+		N   int    `json:"received"`
+		OK  bool   `json:"content_ok"`
+		Err string `json:"err"`
+	}
+	results := make([]res, 8)
+	for i := 0; i < 8; i++ {
+		wg.Add(1)
+		go func(i int) {
+			defer wg.Done()
+			n, ok, e := download(byte(1+i), 0)
+			results[i] = res{n, ok, e}
+		}(i)
+	}
+	wg.Wait()
+	bad := 0
+	for _, r := range results {
+		if r.N != total || !r.OK || r.Err != "" {
+			bad++
+		}
+	}
+	out.emit(map[string]interface{}{"kind": "abort-then-concurrent", "aborted_downloads": 8, "concurrent_downloads": 8, "bytes_each": total, "bad": bad, "results": results})
+}
